@@ -118,15 +118,16 @@ def FS.isDir (fs : FS) (p : Path) : Bool :=
 
 inductive Op
   | stat (p : Path)
+  | lstat (p : Path) (dirfd : Option Nat := none)   -- `os.lstat` / `DirEntry.stat` of shutil.rmtree: also tells WHICH directory is there
   | mkdir (p : Path)
   | creat (p : Path)
   | write (p : Path) (ino : Nat) (d : Bytes)
   | rename (p q : Path)
-  | unlink (p : Path)
-  | rmdir (p : Path)
+  | unlink (p : Path) (dirfd : Option Nat := none)
+  | rmdir (p : Path) (dirfd : Option Nat := none)
   | openr (p : Path)
   | read (p : Path) (ino : Nat)
-  | opendir (p : Path)
+  | opendir (p : Path) (dirfd : Option Nat := none)
   | readdir (p : Path) (ino : Nat)
 deriving DecidableEq, Repr
 
@@ -137,8 +138,22 @@ inductive Res
   | names (l : List (Name × Bool))
 deriving DecidableEq, Repr, Inhabited
 
+/-- `dir_fd=`: the call names `p` relative to an open directory (inode `i`); it only finds anything while the directory at
+`parent p` still is that inode (a removed directory has no entries, even if another one took its name). -/
+def guardOK (fs : FS) (p : Path) : Option Nat → Bool
+  | none => true
+  | some i => match fs.get (parent p) with
+    | some (.dir j) => j == i
+    | _ => false
+
 def apply : Op → FS → Res × FS
   | .stat p, fs => (if (fs.get p).isSome then .yes else .no, fs)
+  | .lstat p g, fs =>
+    if !guardOK fs p g then (.no, fs) else
+    (match fs.get p with
+      | some (.dir i) => .fd i
+      | some (.file _ _) => .yes
+      | none => .no, fs)
   | .mkdir p, fs =>
     match fs.get p with
     | some _ => (.eexist, fs)
@@ -173,12 +188,14 @@ def apply : Op → FS → Res × FS
         | none => (.ok, (fs.erase p).set q (.file i c))
       | some (.file _ _) => (.enotdir, fs)
       | none => (.enoent, fs)
-  | .unlink p, fs =>
+  | .unlink p g, fs =>
+    if !guardOK fs p g then (.enoent, fs) else
     match fs.get p with
     | none => (.enoent, fs)
     | some (.dir _) => (.eisdir, fs)
     | some (.file i c) => (.ok, { (fs.erase p) with orphans := (p, i, c) :: fs.orphans })
-  | .rmdir p, fs =>
+  | .rmdir p g, fs =>
+    if !guardOK fs p g then (.enoent, fs) else
     match fs.get p with
     | none => (.enoent, fs)
     | some (.file _ _) => (.enotdir, fs)
@@ -190,7 +207,8 @@ def apply : Op → FS → Res × FS
     | some (.dir _) => (.eisdir, fs)
     | some (.file i _) => (.fd i, fs)
   | .read p i, fs => (.data (fs.readData p i), fs)
-  | .opendir p, fs =>
+  | .opendir p g, fs =>
+    if !guardOK fs p g then (.enoent, fs) else
     match fs.get p with
     | none => (.enoent, fs)
     | some (.file _ _) => (.enotdir, fs)
@@ -406,36 +424,40 @@ def scandir (rank : Name → Nat) (p : Path) (i : Nat) (k : List (Name × Bool) 
     | _ => k []
 
 /-- `for entry in entries:` of `shutil._rmtree_safe_fd`; `strict = false` is `ignore_errors=True`. -/
-def rmLoop (strict : Bool) (recur : Path → Nat → Prog Unit) (p : Path) : List (Name × Bool) → Prog Unit
+def rmLoop (strict : Bool) (recur : Path → Nat → Prog Unit) (p : Path) (di : Nat) : List (Name × Bool) → Prog Unit
   | [] => ret ()
   | (n, true) :: rest =>
-    op (.stat (p ++ [n])) fun r =>            -- entry.stat(follow_symlinks=False)
-      if r != .yes then (if strict then raise .fileNotFound else rmLoop strict recur p rest)
-      else op (.opendir (p ++ [n])) fun r =>   -- os.open(entry.name, O_RDONLY, dir_fd=topfd)
+    op (.lstat (p ++ [n]) (some di)) fun r0 =>           -- orig_st = entry.stat(follow_symlinks=False)
+      if r0 == .no then (if strict then raise .fileNotFound else rmLoop strict recur p di rest)
+      else op (.opendir (p ++ [n]) (some di)) fun r =>   -- os.open(entry.name, O_RDONLY, dir_fd=topfd)
         match r with
         | .fd j =>
-          (recur (p ++ [n]) j).bind fun _ =>
-          op (.rmdir (p ++ [n])) fun r =>
-            if strict && r != .ok then raise .osError else rmLoop strict recur p rest
-        | _ => if strict then raise .fileNotFound else rmLoop strict recur p rest
+          if r0 == .fd j then                  -- os.path.samestat(orig_st, os.fstat(dirfd))
+            (recur (p ++ [n]) j).bind fun _ =>
+            op (.rmdir (p ++ [n]) (some di)) fun r =>
+              if strict && r != .ok then raise .osError else rmLoop strict recur p di rest
+          else (if strict then raise .osError else rmLoop strict recur p di rest)   -- another directory took the name
+        | _ => if strict then raise .fileNotFound else rmLoop strict recur p di rest
   | (n, false) :: rest =>
-    op (.unlink (p ++ [n])) fun r =>
-      if strict && r != .ok then raise .fileNotFound else rmLoop strict recur p rest
+    op (.unlink (p ++ [n]) (some di)) fun r =>
+      if strict && r != .ok then raise .fileNotFound else rmLoop strict recur p di rest
 
 /-- `shutil._rmtree_safe_fd(topfd, path, onexc)`; the fuel bounds the directory depth (4 here). -/
 def rmSafeFd (rank : Name → Nat) (strict : Bool) : Nat → Path → Nat → Prog Unit
   | 0, _, _ => ret ()
-  | fuel + 1, p, i => scandir rank p i fun l => rmLoop strict (rmSafeFd rank strict fuel) p l
+  | fuel + 1, p, i => scandir rank p i fun l => rmLoop strict (rmSafeFd rank strict fuel) p i l
 
 /-- `shutil.rmtree(p, ignore_errors = !strict)` -/
 def rmtree (rank : Name → Nat) (strict : Bool) (p : Path) : Prog Unit :=
-  op (.stat p) fun r =>                        -- os.lstat(path)
-    if r != .yes then (if strict then raise .fileNotFound else ret ())
+  op (.lstat p) fun r0 =>                      -- orig_st = os.lstat(path)
+    if r0 == .no then (if strict then raise .fileNotFound else ret ())
     else op (.opendir p) fun r =>              -- os.open(path, O_RDONLY)
       match r with
       | .fd i =>
-        (rmSafeFd rank strict 5 p i).bind fun _ =>
-        op (.rmdir p) fun r => if strict && r != .ok then raise .osError else ret ()
+        if r0 == .fd i then                    -- os.path.samestat(orig_st, os.fstat(fd))
+          (rmSafeFd rank strict 5 p i).bind fun _ =>
+          op (.rmdir p) fun r => if strict && r != .ok then raise .osError else ret ()
+        else (if strict then raise .osError else ret ())
       | _ => if strict then raise .fileNotFound else ret ()
 
 /-! ## joblib procedures -/
